@@ -8,6 +8,7 @@ import (
 
 	"github.com/pascaldekloe/mqtt"
 	"pgregory.net/rapid"
+	"verifh/refmqtt"
 	"verifh/sim"
 	"verifh/stats"
 )
@@ -24,7 +25,7 @@ func TestC10NeverWedges(t *testing.T) {
 
 		// --- the read routine's state when the failure strikes ---
 		state := rapid.SampledFrom([]string{"parked-in-read", "holding-qos1", "holding-qos2", "holding-big", "own-ack-write-parked",
-			"pubrel-write-parked", "dialing", "handshake", "resending", "foreign-writer-parked", "foreign-writer-parked"}).Draw(rt, "readerState")
+			"pubrel-write-parked", "dialing", "handshake", "resending", "foreign-writer-parked", "foreign-writer-parked", "skipping-dup-big", "holding-big-tail-outstanding"}).Draw(rt, "readerState")
 		h.Act("reader state %s", state)
 		var pending []*sim.Call
 		switch state {
@@ -60,6 +61,41 @@ func TestC10NeverWedges(t *testing.T) {
 				old := mqtt.VerifSetReadBufSize(128 * 1024)
 				mqtt.VerifSetReadBufSize(old)
 				h.brokerSend(1, old+100)
+			case "holding-big-tail-outstanding":
+				// the application holds a BigMessage which it does not read;
+				// the tail of its payload has not arrived yet
+				size := mqtt.VerifSetReadBufSize(128 * 1024)
+				mqtt.VerifSetReadBufSize(size)
+				h.App.ReadBig = func(int) bool { return false }
+				cur := h.Current()
+				var raw []byte
+				var m *refmqtt.OutMsg
+				h.WithLock(func() {
+					m = h.Broker.NewMessage(byte(rapid.IntRange(0, 2).Draw(rt, "qos")), "big/tail", make([]byte, size+300), false, 0)
+					raw = h.Broker.PublishBytes(m, cur.N)
+				})
+				short := rapid.IntRange(1, 250).Draw(rt, "outstanding")
+				h.Act("the broker sends %q (%d bytes); the last %d bytes stay outstanding", m.Topic, len(raw), short)
+				cur.Send(raw[:len(raw)-short])
+				h.SettleReader("big message returned")
+			case "skipping-dup-big":
+				// an exactly-once message larger than the read buffer was
+				// returned and ownership taken; the broker retransmits it and
+				// the read routine is discarding the duplicate's payload, of
+				// which the tail is still outstanding
+				size := mqtt.VerifSetReadBufSize(128 * 1024)
+				mqtt.VerifSetReadBufSize(size)
+				h.App.ReadBig = func(int) bool { return false }
+				cur := h.Current()
+				m := h.brokerSend(2, size+300)
+				h.App.Step()
+				h.SettleReader("ownership taken")
+				var dup []byte
+				h.WithLock(func() { dup = h.Broker.PublishBytes(m, cur.N) })
+				short := rapid.IntRange(1, 250).Draw(rt, "outstanding")
+				h.Act("the broker retransmits %q; the last %d bytes stay outstanding", m.Topic, short)
+				cur.Send(dup[:len(dup)-short])
+				h.SettleReader("duplicate's payload outstanding")
 			case "own-ack-write-parked":
 				h.brokerSend(byte(rapid.IntRange(1, 2).Draw(rt, "qos")), 10)
 				h.armWrite(rapid.IntRange(0, 3).Draw(rt, "off"), sim.WPark)
@@ -78,7 +114,7 @@ func TestC10NeverWedges(t *testing.T) {
 			}
 		}
 		failure := rapid.SampledFrom([]string{"foreign-publish-write-fails", "foreign-subscribe-write-fails", "foreign-ping-write-fails",
-			"foreign-persisted-write-fails", "read-reset", "read-eof", "mid-packet-stall", "own-write-fails"}).Draw(rt, "failure")
+			"foreign-persisted-write-fails", "read-reset", "read-eof", "mid-packet-stall", "own-write-fails", "silence"}).Draw(rt, "failure")
 		// requests which wait on this connection
 		pinged := false
 		for i := 0; i < rapid.IntRange(0, 2).Draw(rt, "waiting"); i++ {
@@ -335,7 +371,37 @@ func TestC10NeverWedges(t *testing.T) {
 		}
 		noPanics(h)
 		h.checkWire()
+		h.checkLeftAfterError()
 	})
+}
+
+// checkLeftAfterError: once ReadSlices reported an error from a connection (no
+// Persistence fault is in play in C10, and a BigMessage is no error), that
+// connection has failed as far as the client is concerned: it is left, and
+// no later ReadSlices reads from it ("the failure is noticed … the next
+// ReadSlices dials again").
+func (h *H) checkLeftAfterError() {
+	events := h.Events()
+	lastConn := 0 // connection the read routine used last
+	failedAt := map[int]int{}
+	failedErr := map[int]string{}
+	for _, e := range events {
+		switch e.Kind {
+		case sim.EvRead, sim.EvReadPark, sim.EvReadErr:
+			if at, ok := failedAt[e.Conn]; ok {
+				h.Failf("ReadSlices reported %q at event %d while reading from conn %d, yet a later ReadSlices goes on reading from that connection (event %d) instead of dialing again", failedErr[e.Conn], at, e.Conn, e.Seq)
+			}
+			lastConn = e.Conn
+		case sim.EvDialRet:
+			lastConn = 0
+		case sim.EvAppRet:
+			r := h.App.Result(e.N)
+			if r.Err != nil && !r.Big && lastConn != 0 && !errors.Is(r.Err, mqtt.ErrClosed) {
+				failedAt[lastConn] = e.Seq
+				failedErr[lastConn] = r.Err.Error()
+			}
+		}
+	}
 }
 
 // answerIfOwed releases what the broker owes (a pending request may simply be
